@@ -25,6 +25,10 @@ PLAIN_LABELS = ["a", "b c", "", "é", "\U0001d11e", "x=1", "12.5", "3", "-", "l\
 KEYWORD_LABELS = ["item [2]:", "intervals [1]:", "points [3]:", "\"IntervalTier\"", "IntervalTier", "TextTier", "text = \"x\"",
                   "ooTextFile short", "item[1]", "intervals[2]", "points[1]", "xmin = 5", "name = \"n\"", "size = 3", "class = \"IntervalTier\""]
 NAMES = ["words", "phones", "t 1", "é", "n\"q", "x=y"]
+# tier names are kept verbatim by every constructor: leading / trailing blanks, tabs and other white space (A31, fixed: the
+# short-format reader stripped them)
+BLANK_NAMES = [" a b ", "\tq ", " lead", "trail \t", "\u3000wide\u3000", " \"q\" "]
+NAMES = NAMES + BLANK_NAMES
 KEYWORD_NAMES = ["item [1]", "IntervalTier", "intervals [1]:"]
 
 # composed labels: quotes, line breaks and blanks in every arrangement (a quote ending a non-final line, runs of quotes,
@@ -132,6 +136,7 @@ def negate_tg(g, rnd, mode=None):
             back = [[-e[1], -e[0], e[2]] for e in reversed(t["es"])]
         else:
             back = [[-e[0], e[1]] for e in reversed(t["es"]) if not (mode == "straddle" and e[0] == 0)]
+            back.sort(key=lambda e: (e[0], e[1]))      # points at one time: in the constructor's order (time, then mark)
         if mode == "mirror":
             t["es"], t["lo"], t["hi"] = back, -t["hi"], -t["lo"]
         else:
